@@ -379,7 +379,7 @@ impl GenCfg {
 }
 
 pub const STRS: [&str; 11] = ["", "a", "b", "ab", "ba", "c", "é", " ", "%", "\n", "\r\n"];
-pub const INSENS: [&str; 3] = ["a", "Ab", "é"];
+pub const INSENS: [&str; 6] = ["a", "Ab", "é", "É", "Ω", "bÉ"];
 pub const RANGES: [(char, char); 4] = [('a', 'c'), ('b', 'b'), ('a', 'é'), ('c', 'a')];
 pub const BUILTINS: [&str; 10] =
     ["ANY", "SOI", "EOI", "NEWLINE", "ASCII_DIGIT", "ASCII_ALPHA", "ASCII_ALPHANUMERIC", "ASCII", "LETTER", "ASCII_HEX_DIGIT"];
@@ -499,6 +499,55 @@ pub fn stack_heavy_expr() -> BoxedStrategy<GE> {
         ]
     })
     .boxed()
+}
+
+/// Needle sets in which one string contains another (as a prefix or not) or shares its first byte.
+pub const NEEDLE_SETS: [&[&str]; 9] = [&["\n", "\r\n"], &["a", "ba"], &["b", "ab"], &["a", "ab"], &["ab", "b", "a"], &["é", "aé"], &["%", " %"], &["ab", "a", "ba", "b"], &["c"]];
+
+/// Expressions made of terminals: adjacent literals (sensitive / insensitive, ASCII / non-ASCII), ranges, the
+/// skipper shape over related needle sets, each optionally under `? * +`, joined by `~` and `|`.
+pub fn terminal_heavy_expr() -> BoxedStrategy<GE> {
+    let lit = || (0..STRS.len()).prop_map(|i| GE::Str(STRS[i].to_string()));
+    let ins = || (0..INSENS.len()).prop_map(|i| GE::Insens(INSENS[i].to_string()));
+    let leaf = prop_oneof![
+        5 => lit(),
+        4 => ins(),
+        2 => (0..RANGES.len()).prop_map(|i| GE::Range(RANGES[i].0, RANGES[i].1)),
+        4 => (0..NEEDLE_SETS.len()).prop_map(|i| skipper_shape(NEEDLE_SETS[i])),
+        1 => prop_oneof![Just(GE::Builtin("ANY")), Just(GE::Builtin("NEWLINE")), Just(GE::Builtin("ASCII_ALPHA"))],
+        1 => any::<u8>().prop_map(GE::Ref),
+    ];
+    leaf.prop_recursive(3, 12, 3, |inner| {
+        prop_oneof![
+            8 => (inner.clone(), inner.clone()).prop_map(|(a, b)| GE::Seq(Box::new(a), Box::new(b))),
+            3 => (inner.clone(), inner.clone()).prop_map(|(a, b)| GE::Choice(Box::new(a), Box::new(b))),
+            1 => inner.clone().prop_map(|a| GE::Opt(Box::new(a))),
+            1 => inner.clone().prop_map(|a| GE::Rep(Box::new(a))),
+            1 => inner.prop_map(|a| GE::RepOnce(Box::new(a))),
+        ]
+    })
+    .boxed()
+}
+
+/// A grammar of 1-3 terminal-heavy rules, mostly atomic or compound-atomic, with WHITESPACE / COMMENT half of the time.
+pub fn terminal_heavy_grammar() -> BoxedStrategy<Gram> {
+    let ty = prop_oneof![4 => Just(Ty::Atomic), 2 => Just(Ty::Compound), 2 => Just(Ty::Normal), 1 => Just(Ty::Silent), 1 => Just(Ty::NonAtomic)];
+    (proptest::collection::vec((ty, terminal_heavy_expr()), 1..=3), opt_weighted(0.4, (ty_strategy(), ws_body())), opt_weighted(0.3, (ty_strategy(), comment_body())))
+        .prop_map(|(rules, ws, cm)| {
+            let mut g = Gram { rules: vec![] };
+            for (i, (ty, expr)) in rules.into_iter().enumerate() {
+                g.rules.push(GRule { name: format!("r{i}"), ty, expr });
+            }
+            if let Some((ty, body)) = ws {
+                g.rules.push(GRule { name: "WHITESPACE".into(), ty, expr: body });
+            }
+            if let Some((ty, body)) = cm {
+                g.rules.push(GRule { name: "COMMENT".into(), ty, expr: body });
+            }
+            repair(&mut g);
+            g
+        })
+        .boxed()
 }
 
 /// A grammar of 1-3 stack-heavy rules (no implicit whitespace, any modifier).
